@@ -4,7 +4,7 @@
    (c, c+ny+1, c+ny+2, c+1) with c = i(ny+1)+j, and vertex number i(ny+1)+j lies at (bx + i dx, by + j dy) -- hence every
    face is exactly the dx x dy cell (i,j), all cells are congruent, and there are nx*ny of them.  Removal of cells, the
    polygon / face grids, and OBJ / STL files are validated by the harness (file I/O is not modelled). *)
-From LBG Require Import Base QGeom G0_vec G10_grid C20_grid.
+From LBG Require Import Base QGeom G0_vec G10_grid C20_grid MeshOps.
 Open Scope Q_scope.
 
 Theorem C20_grid_faces_closed_form : forall nx ny, (0 <= nx)%Z -> (0 <= ny)%Z ->
@@ -22,6 +22,26 @@ Theorem C20_grid_vertex_position : forall b nx ny dx dy i j, (0 <= nx)%Z -> (0 <
   v2x v == v2x b + inject_Z (Z.of_nat i) * dx /\ v2y v == v2y b + inject_Z (Z.of_nat j) * dy.
 Proof. exact grid_vertex_position. Qed.
 Print Assumptions C20_grid_vertex_position.
+
+(* removal (hand model MeshOps.v of _remove_vertices / _remove_faces_only / _transfer_face_centroids_areas, run against
+   Mesh2D/Mesh3D.remove_vertices and remove_faces_only): a surviving face references the same points as before, a face survives
+   exactly when all its vertices do, and per-face data filtered by the face pattern stays aligned with the surviving faces *)
+Theorem C20_surviving_faces_reference_the_same_points : forall (A : Type) (verts : list A) pattern f f' d,
+  length pattern = length verts -> new_face (renum pattern 0) f = Some f' ->
+  map (fun j => nth j (keep pattern verts) d) f' = map (fun i => nth i verts d) f.
+Proof. intros A. exact (@surviving_face_same_points A). Qed.
+Print Assumptions C20_surviving_faces_reference_the_same_points.
+
+Theorem C20_face_survives_iff_all_its_vertices_do : forall pattern f,
+  is_some (new_face (renum pattern 0) f) = true <-> forall i, In i f -> nth i pattern false = true.
+Proof. exact face_survives_iff. Qed.
+Print Assumptions C20_face_survives_iff_all_its_vertices_do.
+
+Theorem C20_per_face_data_stays_aligned : forall (D : Type) (nf : list (option (list nat))) (data : list D), length data = length nf ->
+  combine (somes nf) (keep (map is_some nf) data)
+  = flat_map (fun od => match fst od with Some f => [(f, snd od)] | None => [] end) (combine nf data).
+Proof. intros D. exact (@face_data_aligned D). Qed.
+Print Assumptions C20_per_face_data_stays_aligned.
 
 Example C20_nonvacuous :
   Mesh2D__grid_faces 2 2 = [(0, 3, 4, 1); (1, 4, 5, 2); (3, 6, 7, 4); (4, 7, 8, 5)]%Z /\
